@@ -52,13 +52,16 @@ def mt_text(m):
     return '%s/%s' % (m['t'], m['s']) if m['t'] else ''
 
 
-def observe_render(ex, res, tag_handlers):
+def observe_render(ex, res, tag_handlers, own_vary=None):
     """Project a rendered error response onto ErrorRender's observation record (trusted decoders only)."""
     import urllib.parse
     ct = (res.header('content-type') or '').split(';')[0].strip().lower()
     t, _, s = ct.partition('/')
     obs = {'status': res.status or 0, 'kind': 'none', 'ctype': {'t': t, 's': s}, 'fields': [], 'doc': None,
            'vary': any('accept' in [x.strip().lower() for x in v.split(',')] for v in res.header_all('vary'))}
+    if own_vary:        # the error's own Vary tokens must be there too (token-wise, case-insensitive)
+        have = [x.strip().lower() for v in res.header_all('vary') for x in v.split(',')]
+        obs['vary'] = obs['vary'] and all(t.strip().lower() in have for t in own_vary.split(','))
     b = res.body
     if not b:
         return obs
@@ -81,7 +84,10 @@ def observe_render(ex, res, tag_handlers):
     return obs
 
 
-def check_render(ctx, cell, fields, asgi, leg, site='responder'):
+OWN_VARY = [None, 'Accept-Encoding', 'accept-language, X-Accept', 'Cookie', 'X-Accept']
+
+
+def check_render(ctx, cell, fields, asgi, leg, site='responder', own_vary=None):
     """Replay one cell of TLC's rendering table with concrete field values.  Returns the observation."""
     acc, out = cell['acc'], cell['out']
     accept = H.accept_text(acc)
@@ -93,8 +99,8 @@ def check_render(ctx, cell, fields, asgi, leg, site='responder'):
     f.code = (fields.code if fields.code is not None else 42) if e['code'] else None
     f.href = (fields.href or 'http://example.com/help') if e['link'] else None
     f.href_text = fields.href_text if e['link'] else None
-    ex, res, hs = H.render_case(accept, cell['xmlOn'], extra, f, asgi=asgi, site=site)
-    case = {'leg': leg, 'iface': 'asgi' if asgi else 'wsgi', 'site': site, 'accept': accept, 'xmlOn': cell['xmlOn'], 'extra': extra,
+    ex, res, hs = H.render_case(accept, cell['xmlOn'], extra, f, asgi=asgi, site=site, own_vary=own_vary)
+    case = {'leg': leg, 'iface': 'asgi' if asgi else 'wsgi', 'site': site, 'own_vary': own_vary, 'accept': accept, 'xmlOn': cell['xmlOn'], 'extra': extra,
             'err': e, 'fields': vars(f), 'spec': out}
     if res.exc is not None or ex is None:
         ctx.violation('P4:escaped', case, 'exception left the app: %r' % (res.exc,))
@@ -102,7 +108,7 @@ def check_render(ctx, cell, fields, asgi, leg, site='responder'):
     if res.errors:
         ctx.violation('P4:protocol', case, 'protocol errors %r' % (res.errors,))
         return None, case
-    obs = observe_render(ex, res, hs)
+    obs = observe_render(ex, res, hs, own_vary)
     case['obs'] = {k: obs[k] for k in ('status', 'kind', 'ctype', 'vary', 'fields')}
     case['ex'] = ex
     return obs, case
@@ -117,7 +123,7 @@ def compare_render(ctx, cell, obs, case):
     if obs['status'] != out['status']:
         clause, what = 'P4:render-status', 'status %r, the error carries %r' % (obs['status'], out['status'])
     elif not obs['vary']:
-        clause, what = 'P4:vary', 'Vary: Accept missing'
+        clause, what = 'P4:vary', 'Vary lacks the token Accept or a token of the error\'s own Vary header'
     elif out['kind'] != 'none' and obs['kind'] != out['kind']:
         clause, what = 'P4:negotiation', 'body representation %r, negotiated %r (%s)' % (obs['kind'], out['kind'], mt_text(out['ctype']))
     elif out['kind'] != 'none' and set(obs['fields']) != set(out['fields']) and not obs.get('flat'):
@@ -208,7 +214,7 @@ def run(ctx):
                  timeout=ctx.pick(280, 1500), count=False)
     sessions = list({digest(b): b for b in rr.json}.values())
     ctx.extra['spec_sessions_exported'] = len(sessions)
-    cap = ctx.pick(3000, 60000)
+    cap = ctx.pick(2400, 60000)
     if len(sessions) > cap:
         rng.shuffle(sessions)
         sessions = sessions[:cap]
@@ -228,7 +234,7 @@ def run(ctx):
             for asgi in (False, True):
                 f = H.Fields(frng, 1, xml_safe=False)
                 site = 'render' if k % 2 else 'responder'      # the same rendering is due at every raise site
-                obs, case = check_render(ctx, cell, f, asgi, 'A-render', site)
+                obs, case = check_render(ctx, cell, f, asgi, 'A-render', site, OWN_VARY[(k + frng.randrange(5)) % 5])
                 ctx.case(case, nontrivial=not cell['acc']['absent'], key=digest([cell, vars(f), asgi, site]))
                 n += 1
                 if obs is not None:
@@ -238,7 +244,7 @@ def run(ctx):
 
     # ---- leg B: random registries ------------------------------------------------------------------
     items = []
-    for k in range(ctx.pick(5000, 120000)):
+    for k in range(ctx.pick(4000, 120000)):
         regs = [{'cls': rng.choice(H.ALL_CLASSES), 'beh': rng.choice(ALL_BEHS)} for _ in range(rng.randint(0, 6))]
         trace, case, runs = H.random_trace(rng, asgi=bool(k & 1), ncomp=rng.randint(0, 3), maxhooks=1, regs=regs,
                                            classes=H.ALL_CLASSES, maxfaults=3, render_p=0.15, rich=True,
@@ -264,7 +270,8 @@ def run(ctx):
         cell = {'acc': random_accept(rng), 'xmlOn': rng.random() < 0.7, 'extra': rng.choice([[], [tag], [axml], [tag, axml]]),
                 'err': {'status': 422, 'desc': rng.random() < 0.5, 'code': rng.random() < 0.5, 'link': rng.random() < 0.5},
                 'out': {'status': 422, 'kind': '?', 'ctype': {'t': '', 's': ''}, 'fields': []}}
-        obs, case = check_render(ctx, cell, H.Fields(rng, 1), bool(k & 1), 'B-render', rng.choice(['responder', 'render']))
+        obs, case = check_render(ctx, cell, H.Fields(rng, 1), bool(k & 1), 'B-render', rng.choice(['responder', 'render']),
+                                  rng.choice(OWN_VARY))
         ctx.case(case, nontrivial=not cell['acc']['absent'], key=digest(case['obs'] if obs else k))
         if obs is None:
             continue
@@ -303,9 +310,9 @@ def replay(ctx, case):
         for k, v in case['fields'].items():
             setattr(f, k, v)
         ex, res, hs = H.render_case(case['accept'], case['xmlOn'], case['extra'], f, asgi=case['iface'] == 'asgi',
-                                    site=case.get('site', 'responder'))
+                                    site=case.get('site', 'responder'), own_vary=case.get('own_vary'))
         print('status:', res.status, 'headers:', res.headers, '\nbody:', res.body, '\nexc:', res.exc)
-        obs = observe_render(ex, res, hs)
+        obs = observe_render(ex, res, hs, case.get('own_vary'))
         print('observed:', {k: obs[k] for k in ('status', 'kind', 'ctype', 'vary', 'fields')}, '\nspecified:', case.get('spec'))
         if case.get('spec') and case['spec'].get('kind') != '?':
             cell = {'out': case['spec']}
